@@ -79,7 +79,7 @@ PROP = {
                       "each completed read carries exactly one datagram queued to that socket and not read before, its bytes truncated "
                       "to the buffer, n = min(len, buffer), the sender's IP and port, in the buffer most recently designated; each "
                       "accepted write queues exactly one datagram with exactly the caller's bytes to exactly the sockets the "
-                      "destination admits and a refused write changes nothing (C12_one_datagram_per_write); a multicast datagram is "
+                      "destination allows and a refused write changes nothing (C12_one_datagram_per_write); a multicast datagram is "
                       "delivered only to sockets whose group is joined, not left and whose filter passes the source, and - when the "
                       "last membership call for that group did not fail - to all of them (C12_delivery_only / C12_delivery over all "
                       "membership scripts; kMemb_refines: the Linux source-filter machine incl. its mode switch and errno values refines "
